@@ -189,7 +189,9 @@ ob("C06", "K4.emptydoc", {"c0": R(0, 0), "c1": R(0, 0), "c2": R(0, 0)}, T=60, tw
 
 # K5: Literal => pattern accepting exactly the members (z3 regex query per member set) ------------------------
 MEMBER_SETS = [["a"], ["np", "tf"], ["tf", "np"], ["mean", "sum", "none"], ["A", "a"], ["ab", "abc", "b"], ["x", "y", "z", "w"],
-               ["v1", "v2"], ["read_only", "read_write"], ["utf-8", "latin-1"], ["1", "2"], ["a b", "c"]]
+               ["v1", "v2"], ["read_only", "read_write"], ["utf-8", "latin-1"], ["1", "2"], ["a b", "c"],
+               # members that LOOK like other things: None-ish / boolean / numeric words, Python keywords, type names
+               ["None", "all", "some"], ["None"], ["True", "False"], ["null", "none"], ["int", "str"], ["class", "def"], ["0", "15"], ["Optional", "List"]]
 
 
 def _re_of_pattern(z3, pat):
@@ -226,6 +228,16 @@ def k5():
             return {"verdict": "violation", "diag": "Literal type %s emitted without a string pattern: %r" % (typ, prop), "cex": {"members": members}}
         rx = _re_of_pattern(z3, pat)
         if rx is None:
+            # the pattern uses regex metacharacters although no member of these sets contains one: decide with the pattern's own (JSON-schema/ECMA ~ Python `re`) semantics on the members
+            import re as _re
+
+            for m in members:
+                try:
+                    ok = _re.fullmatch(pat, m) is not None
+                except _re.error:
+                    ok = False
+                if not ok:
+                    return {"verdict": "violation", "queries": q, "cex": {"members": members, "m": m}, "diag": "pattern %r of %s rejects its member %r" % (pat, typ, m)}
             return {"verdict": "unknown", "messages": ["pattern %r outside the translated regex subset" % pat]}
         x = z3.String("x")
         s = z3.Solver()
